@@ -142,6 +142,12 @@ func sprintfArgs(c *ssa.Call) string {
 }
 
 func checkC11(p *load.Program, r *kit.Report) {
+	r.Rule("RESTORE-INVALID-LIST", "every exit of load that can report success — also the legacy-store exit through migrate — lies behind loadInvalidHashes", 1)
+	checkLoadReadsInvalidList(p, r, "RESTORE-INVALID-LIST")
+	r.Rule("PRUNE-BEFORE-LINK", "load shortens the restored branches to the retained depth before it links them: a branch whose fork point is not retained must fail to link", 1)
+	checkLoadPrunesBeforeLinking(p, r, "PRUNE-BEFORE-LINK")
+	importRules(p, r, "C12", "a legacy store is restored by reading old files until one is missing: that miss ends the scan, it is not a failure (a chain that fills its last file exactly ends with it)", 1,
+		func(o *kit.Obligation) bool { return strings.HasPrefix(o.Construct, "migrate/") }, "TOLERATE")
 	importRules(p, r, "C09", "a loaded repository holds less in memory than the original: ranges and heights are then served from the files, which must be read only where memory has no answer and at the record the writer put there", 4, nil, "LOOKUP-SHAPE")
 	importRules(p, r, "C09", "a loaded repository holds less in memory than the original: ranges and heights are then served from the files, which must be read only where memory has no answer and only up to the tip", 6, nil, "TIP-BOUND")
 	importRules(p, r, "C01", "load re-attaches every restored branch with Branch.Link: it must pick the parent (the first branch of the oldest-first list that knows the previous hash), or heights between two sibling forks resolve to the wrong branch after a restart", 1, nil, "LINK-FIRST")
